@@ -10,6 +10,48 @@ import PagexmlModel.Lemmas.C18Ex
 
 namespace Pagexml.C18
 
+/-! ### the regenerated literals and defaults
+
+The model reads the defaults of split_lines_on_column_gaps, the `N` of `max(gap_threshold, N)`, the
+`min_column_width` of the recursive call and its guard, and the threshold with which
+is_horizontally_overlapping is reached from `Generated/C18.lean`, rewritten from the source on every
+run.  No proof unfolds these constants except the statements of this section: every other theorem
+holds for all their values, given these relations.  `gap_threshold` and `min_column_width` are
+universally quantified in all theorems, so their defaults are covered whatever they are. -/
+
+/-- adjacent covered pixels are never a gap: `2 ≤ N` for the `N` of `max(gap_threshold, N)` -/
+theorem C18_consts_min_gap_ge_two : 2 ≤ gapMin := consts_min_gap_ge_two
+
+/-- a hole of a single uncovered pixel is a gap for thresholds 1 and 2: `N ≤ 2`.  This is the reading of
+    "separated by at least the gap threshold" that the harness oracle judges (`max(thr, 2)` in
+    `_components`); a larger `N` breaks this statement — and the oracle then finds groups a threshold
+    apart that are not separated. -/
+theorem C18_consts_min_gap_covers_spec : gapMin ≤ 2 := by decide
+
+/-- the recursive call's minimum width does not pass the guard again and filters nothing; the guard lets
+    the recursion happen whenever a positive minimum width may have left lines over -/
+theorem C18_consts_recursion_stops : recMcw ≤ recGuard ∧ recGuard ≤ 0 := consts_recursion_stops
+
+/-- the default overlap threshold of within_column lies in `[1/2, 1)` -/
+theorem C18_consts_within_threshold :
+    0 < Generated.C18.withinThr.2 ∧ Generated.C18.withinThr.1 < Generated.C18.withinThr.2 ∧
+      Generated.C18.withinThr.2 ≤ 2 * Generated.C18.withinThr.1 := consts_within_threshold
+
+/-- the threshold of is_horizontally_overlapping (as reached from column_parser and `__lt__`) is a
+    non-negative fraction -/
+theorem C18_consts_col_overlap_threshold_nonneg :
+    0 ≤ Generated.C18.colHOverlapThr.1 ∧ 0 < Generated.C18.colHOverlapThr.2 := consts_col_overlap_threshold_nonneg
+
+/-- a call that leaves out `gap_threshold` / `min_column_width` is the call with the defaults the source
+    declares (whatever they are), so every theorem below covers it -/
+theorem C18_defaults (thr mcw : Option Int) (g : RegInfo) (r : Region) :
+    splitRegionDefaults thr mcw g r =
+      splitRegion (thr.getD Generated.C18.defaultGapThreshold) (mcw.getD Generated.C18.defaultMinColumnWidth) g r ∧
+    splitRegionDefaults thr mcw g r ≠ .error .OutOfFuel :=
+  ⟨rfl, split_noFuel _ _ g r.getLines⟩
+
+example : (splitRegionDefaults none none exReg (.mk exLines [])).isOk = true := by decide
+
 /-! ### the pixel list -/
 
 /-- The model's pixel list is the set of covered pixels, strictly increasing (no duplicates):
@@ -29,9 +71,9 @@ example : (17 : Int) ∈ pixels exLines ∧ (50 : Int) ∉ pixels exLines := by
 /-! ### the gap intervals -/
 
 /-- Invariant of the interval loop: the intervals are non-empty, in increasing order, and any
-    two of them are at least `max thr 2` apart (for every threshold, also 0 or negative). -/
+    two of them are at least `max thr gapMin` apart (for every threshold, also 0 or negative). -/
 theorem C18_ranges_disjoint_sorted (thr : Int) (ls : List Line) :
-    (gapIntervals thr (pixels ls)).Pairwise (fun a b => a.2 + max thr 2 ≤ b.1) ∧
+    (gapIntervals thr (pixels ls)).Pairwise (fun a b => a.2 + max thr gapMin ≤ b.1) ∧
     (∀ ρ ∈ gapIntervals thr (pixels ls), ρ.1 ≤ ρ.2) ∧
     (gapIntervals thr (pixels ls)).Nodup := by
   have hp := gapIntervals_pairwise thr (pixels_sorted ls)
@@ -41,6 +83,7 @@ theorem C18_ranges_disjoint_sorted (thr : Int) (ls : List Line) :
   refine List.Pairwise.imp_of_mem ?_ hp
   intro a b ha _ hab heq
   have := hw a ha
+  have hN := consts_min_gap_ge_two
   subst heq
   omega
 
@@ -69,8 +112,8 @@ theorem C18_within_iff_span (thr : Int) (ls : List Line) (l : Line) (hl : l ∈ 
 example : hit ⟨"b", ⟨5, 20, 28, 30⟩⟩ (0, 30) = true ∧ hit ⟨"b", ⟨5, 20, 28, 30⟩⟩ (100, 130) = false := by
   decide
 
-/-- With the overlap threshold 1/2 a line is within at most one of two disjoint ranges
-    (two disjoint overlaps cannot both exceed half the width). -/
+/-- With an overlap threshold of at least 1/2 (`C18_consts_within_threshold`: the regenerated default is) a
+    line is within at most one of two disjoint ranges (two disjoint overlaps cannot both exceed half the width). -/
 theorem C18_at_most_one_range (l : Line) (hw : l.box.l ≤ l.box.r) (ρ1 ρ2 : Int × Int)
     (hd : ρ1.2 ≤ ρ2.1) : ¬ (hit l ρ1 = true ∧ hit l ρ2 = true) :=
   fun ⟨h1, h2⟩ => hit_disjoint hw hd h1 h2
@@ -131,17 +174,17 @@ theorem C18_no_exception (thr mcw : Int) (g : RegInfo) (lines : List Line) (hpos
 
 example : PosW exLines := exLines_pos
 
-/-- Separation: if no line bridges the strip between `cut` and `cut + max thr 2` (every line ends
-    at or before `cut` or starts at least `max thr 2` further right), a line left of the strip and a
-    line right of it are never in the same returned column.  (`max thr 2`: a gap has at least one
+/-- Separation: if no line bridges the strip between `cut` and `cut + max thr gapMin` (every line ends
+    at or before `cut` or starts at least `max thr gapMin` further right), a line left of the strip and a
+    line right of it are never in the same returned column.  (`max thr gapMin`: a gap has at least one
     uncovered pixel; for thresholds ≥ 2 this is the threshold itself.)  No condition on the minimum
     column width or on the width of the groups is needed: lines of intervals narrower than the
     minimum width are split again among themselves. -/
 theorem C18_separation (thr mcw : Int) (g : RegInfo) (lines : List Line) (hpos : PosW lines)
     (cols : List Col) (h : split 2 thr mcw g lines = .ok cols)
-    (cut : Int) (hnb : ∀ l ∈ lines, l.box.r ≤ cut ∨ cut + max thr 2 ≤ l.box.l)
+    (cut : Int) (hnb : ∀ l ∈ lines, l.box.r ≤ cut ∨ cut + max thr gapMin ≤ l.box.l)
     (a b : Line) (ha : a ∈ lines) (hb : b ∈ lines) (hac : a.box.r ≤ cut)
-    (hbc : cut + max thr 2 ≤ b.box.l) :
+    (hbc : cut + max thr gapMin ≤ b.box.l) :
     ¬ ∃ c ∈ cols, a ∈ c.lines ∧ b ∈ c.lines := by
   obtain ⟨c1, c2, h', hl1, hl2⟩ := split_pos 0 thr mcw g lines hpos
   rw [h'] at h
@@ -159,12 +202,12 @@ theorem C18_separation (thr mcw : Int) (g : RegInfo) (lines : List Line) (hpos :
     exact sep_in_level (fun l hl => hpos l (hsub l hl)) (fun l hl => hnb l (hsub l hl)) hρ
       (mem_colFor.mp hca).1 (mem_colFor.mp hcb).1 (mem_colFor.mp hca).2 (mem_colFor.mp hcb).2 hac hbc
 
-example : ∀ l ∈ exLines, l.box.r ≤ 30 ∨ 30 + max (50 : Int) 2 ≤ l.box.l := by
+example : ∀ l ∈ exLines, l.box.r ≤ 30 ∨ 30 + max (50 : Int) gapMin ≤ l.box.l := by
   intro l hl
   simp [exLines] at hl
   rcases hl with rfl | rfl | rfl | rfl <;> decide
 
-/-- Togetherness: a non-empty group of input lines whose own pixels leave no hole of `max thr 2`
+/-- Togetherness: a non-empty group of input lines whose own pixels leave no hole of `max thr gapMin`
     (`GapConnected`) ends up in one column, whatever else is on the page and however narrow the
     group is. -/
 theorem C18_together (thr mcw : Int) (g : RegInfo) (lines : List Line) (hpos : PosW lines)
